@@ -110,7 +110,7 @@ CLAIMED.update({
 CLAIMED.update({
     "C14": {
         "technique": "TLA+ model of the goroutine-level steps of Compile / initKnownFunctions (Conc) model-checked over all interleavings with negative controls, and its invariants proved inductive for any number of goroutines and calls with the TLA+ proof system (ConcProof, 258 obligations); TLC-drawn schedules replayed on real goroutines in a -race build; recorded hook logs validated by TLC (TraceConc)",
-        "text": "TLC explores every interleaving of three goroutines issuing five calls at hook-point granularity and checks NoRace, InitOnce, ParamsUnchanged, ResultIsFunctionOfInput and deadlock freedom; the two negative-control configurations must fail. Schedules from tlc -simulate are replayed by the clock (no hand-offs that would hide races) on the real code built with -race, each round starting from a never-used function table; per-goroutine hook logs of free rounds are validated by TLC as behaviours of the model; bursts of 2/8/64 goroutines with mixed Compile/Parse/Scan calls run in fresh processes. Results must equal the same call alone for nil/zero/empty options, every (source, parameter contents) pair must give one result over the whole run incl. fresh processes, a call must show its own parameter snippet, parameter maps must be unchanged, race reports are violations.",
+        "text": "TLC explores every interleaving of three goroutines issuing five calls at hook-point granularity and checks NoRace, InitOnce, ParamsUnchanged, ResultIsFunctionOfInput and deadlock freedom; the two negative-control configurations must fail. Schedules from tlc -simulate are replayed by the clock (no hand-offs that would hide races) on the real code built with -race, each round starting from a never-used function table; per-goroutine hook logs of free rounds are validated by TLC as behaviours of the model (a rejected log is reported as conformance drift: the property speaks about results, races and parameter maps); the same invariants are proved for any number of goroutines and calls by the TLA+ proof system (ConcProof.tla); bursts of 2/8/64 goroutines with mixed Compile/Parse/Scan calls run in fresh processes. Results must equal the same call alone for nil/zero/empty options, every (source, parameter contents) pair must give one result over the whole run incl. fresh processes, a call must show its own parameter snippet, parameter maps must be unchanged, race reports are violations.",
         "note": "Data races are detected by the Go race detector on the schedules and bursts the run executes; hooks exist only under build tag verif.",
         "ref": "DESIGN.md 3.8, 4 (C14), 5",
     },
